@@ -2,6 +2,7 @@
 
 from __future__ import annotations
 
+import zlib
 import asyncio
 import gc
 import inspect
@@ -266,6 +267,9 @@ class Run:
         if stored is not None and model is not None:
             setattr(model, spec.get("state_field", "state"), eval(step["stored_expr"], self.mod.__dict__))  # noqa: S307
         kw = {"rtc": spec["opts"]["rtc"], "allow_event_without_transition": spec["opts"]["allow"]}
+        if zlib.crc32(str(spec["uid"]).encode()) % 5 == 1:
+            # options read from a configuration file / environment as 0 / 1 instead of False / True
+            kw = {k_: int(v_) for k_, v_ in kw.items()}
         if listeners:
             kw["listeners"] = listeners
         if spec.get("state_field", "state") != "state":
